@@ -52,7 +52,7 @@ theorem tokE_of_idle (s : St) (n : Nat) (hw : s.ws = List.replicate n .idle) (h1
 is open, and (before 832d000) `compWriteLocking` set by a `SetReadOnly` between its two `select`s -/
 def Inv (cfg : Cfg) (s : St) : Prop := (Good s ∧ SrOk cfg s) ∧ OpenE s ∧ CwlOk cfg s
 
-theorem step_goodE (cfg : Cfg) (h3 : Fixed3 cfg) (hm : cfg.m = .asCoded) (hsh : cfg.Shape) (s t : St) (f : Bool)
+theorem step_goodE (cfg : Cfg) (h3 : Fixed3 cfg) (hm : cfg.m = .asCoded cfg.closeSel) (hsh : cfg.Shape) (s t : St) (f : Bool)
     (h : Step cfg f s t) (g : Inv cfg s) : Inv cfg t :=
   ⟨⟨⟨step_rinvW cfg h3 s t f h g.1.1.r, step_pinvA s t f cfg h3 hm g.1.2 h g.1.1.a,
       step_pinvB s t f cfg h3 hm g.1.2 hsh g.2.2 h g.1.1.b, step_pinvC s t f cfg h3 hm g.1.2 h g.1.1.c,
@@ -66,7 +66,7 @@ are closed, `compactionError` is as coded, the hand-over of the token between `S
 is as coded since 832d000 or as coded before, and either the `SetReadOnly`∥`Close` leak is closed too or no
 thread executes `SetReadOnly` -/
 def Covered (cfg : Cfg) (s : St) : Prop :=
-  Fixed3 cfg ∧ cfg.m = .asCoded ∧ cfg.Shape ∧
+  Fixed3 cfg ∧ cfg.m = .asCoded cfg.closeSel ∧ cfg.Shape ∧
   ((cfg.setReadOnlyReleasesOnClose = true ∧ (Reachable cfg s ∨ ReachableNC cfg s)) ∨ ReachableNoSR cfg s)
 
 theorem openE_of_idle (s : St) (n : Nat) (hw : s.ws = List.replicate n .idle) (h1 : s.tok = false)
@@ -104,7 +104,7 @@ theorem covered_steps (cfg : Cfg) (s t : St) (h : Covered cfg s) (hs : Steps cfg
 
 /-- **since 832d000**: the accounting of the token is exact in every run — corruption errors, `SetReadOnly` and
 `Close` anywhere -/
-theorem exact_handsOver (cfg : Cfg) (h3 : Fixed3 cfg) (hm : cfg.m = .asCoded) (hh : cfg.HandsOver)
+theorem exact_handsOver (cfg : Cfg) (h3 : Fixed3 cfg) (hm : cfg.m = .asCoded cfg.closeSel) (hh : cfg.HandsOver)
     (h4 : cfg.setReadOnlyReleasesOnClose = true) (s : St)
     (hr : Reachable cfg s ∨ ReachableNC cfg s ∨ ReachableNoSR cfg s) : ExactH s := by
   have key : ∀ (s0 : St) (n : Nat), s0.ws = List.replicate n .idle → s0.tok = false → s0.trOpen = false →
@@ -121,7 +121,7 @@ theorem exact_handsOver (cfg : Cfg) (h3 : Fixed3 cfg) (hm : cfg.m = .asCoded) (h
   · exact key _ n rfl rfl rfl rfl rfl rfl rfl hs
 
 /-- runs without corruption errors: the accounting of the token is exact throughout -/
-theorem exact_noCorr (cfg : Cfg) (h3 : Fixed3 cfg) (hm : cfg.m = .asCoded)
+theorem exact_noCorr (cfg : Cfg) (h3 : Fixed3 cfg) (hm : cfg.m = .asCoded cfg.closeSel)
     (h4 : cfg.setReadOnlyReleasesOnClose = true) (s : St) (hr : ReachableNC cfg s) : ExactJ s := by
   obtain ⟨n, hs⟩ := hr
   refine steps_inv_of_step ExactJ (fun s t f h inv => step_exactJ cfg h3 hm s t f (Or.inl h4) h inv) _ _ hs ?_
@@ -131,7 +131,7 @@ theorem exact_noCorr (cfg : Cfg) (h3 : Fixed3 cfg) (hm : cfg.m = .asCoded)
     rw [tot_replicate_idle _ _ rfl]; exact Nat.zero_le _
 
 /-- … also when no thread executes `SetReadOnly` (then `compactionError` never holds the token) -/
-theorem exact_noSR (cfg : Cfg) (h3 : Fixed3 cfg) (hm : cfg.m = .asCoded) (s : St) (hr : ReachableNoSR cfg s) :
+theorem exact_noSR (cfg : Cfg) (h3 : Fixed3 cfg) (hm : cfg.m = .asCoded cfg.closeSel) (s : St) (hr : ReachableNoSR cfg s) :
     TokE s := by
   obtain ⟨n, hs⟩ := hr
   have key : ∀ s, Steps cfg (initNoSR n) s → True ∧ NoSR s ∧ TokE s := by
@@ -327,6 +327,8 @@ theorem close_thread_step (cfg : Cfg) (s t : St) (f : Bool) (h : Step cfg f s t)
   | clBody _ i hi =>
     (try simp only [St.setDone, St.setBg, ↓reduceIte, Bool.false_eq_true, Bool.and_false, Bool.and_true, Bool.false_and, Bool.true_and]) <;> (repeat' split) <;> (try simp only [List.getElem?_set]) <;> grind [St.setBg, St.setDone, St.bg, clearW, onOk, onErr, selNext, afterSetErr, clAllW]
   | clAcq _ i hi ht =>
+    (try simp only [St.setDone, St.setBg, ↓reduceIte, Bool.false_eq_true, Bool.and_false, Bool.and_true, Bool.false_and, Bool.true_and]) <;> (repeat' split) <;> (try simp only [List.getElem?_set]) <;> grind [St.setBg, St.setDone, St.bg, clearW, onOk, onErr, selNext, afterSetErr, clAllW]
+  | clAcqKept _ i hi he hk hs =>
     (try simp only [St.setDone, St.setBg, ↓reduceIte, Bool.false_eq_true, Bool.and_false, Bool.and_true, Bool.false_and, Bool.true_and]) <;> (repeat' split) <;> (try simp only [List.getElem?_set]) <;> grind [St.setBg, St.setDone, St.bg, clearW, onOk, onErr, selNext, afterSetErr, clAllW]
   | clWait _ i hi hm ht =>
     (try simp only [St.setDone, St.setBg, ↓reduceIte, Bool.false_eq_true, Bool.and_false, Bool.and_true, Bool.false_and, Bool.true_and]) <;> (repeat' split) <;> (try simp only [List.getElem?_set]) <;> grind [St.setBg, St.setDone, St.bg, clearW, onOk, onErr, selNext, afterSetErr, clAllW]
